@@ -88,6 +88,7 @@ def cval(v, ctype):
     if v is None:
         return '0'
     s = str(v)
+    s = re.sub(r'^(-?\d+)[uUlL]+$', r'\1', s)
     if s in ('TRUE', 'true'):
         return '1'
     if s in ('FALSE', 'false'):
@@ -137,6 +138,7 @@ def try_replay(path, verbose=False):
     src.append('#define __CPROVER_return_value rv_')
     src.append('#include "%s"' % os.path.join(VERIF, 'spec', 'gregorian.h'))
     src.append(defines_of(header))
+    src.append(getattr(bind, 'NATIVE_OPAQUE', ''))
     src.append('int main() {')
     for ty, nm, lit in args:
         src.append('  %s %s = %s;' % (ty.replace('const ', ''), nm, lit))
